@@ -547,6 +547,8 @@ def install(ex):
         if concrete(s):
             return s.upper()
         r = upper_of(s.z)
+        # instance axiom of str.upper: the empty string, and only it, maps to the empty string
+        I.assume((z3.Length(r) == 0) == (z3.Length(s.z) == 0))
         return SStr(r)
 
     @method("str", "join")
